@@ -45,7 +45,7 @@ RUNS = [RUN]
 # ---- second group
 GOARITH2_V = os.path.join(vcheck.COQ, "Gen", "GoArith2.v")
 GOARITH2_SIGS = os.path.join(vcheck.COQ, "Gen", "GoArith2.sigs")
-_EX2 = "Extract/ExtractGoArith2.vo"
+EXTRACT2 = _EX2 = "Extract/ExtractGoArith2.vo"  # needed in COQ_TARGETS by whoever adds RUNS2
 COQ_TARGETS2_BY_OWNER = {
     # property -> .vo files whose build is the kernel-checked obligation "the Go code still says what the model restates"
     "C04": ["Gen/Agree2Builder.vo"], "C05": ["Gen/Agree2Builder.vo"], "C16": ["Gen/Agree2Builder.vo"],
